@@ -10,7 +10,7 @@ use crate::erased::{DynTarget, InfallibleTarget};
 use crate::json::J;
 use crate::model::{TOp, R};
 use crate::prop::{Opts, Property, RunOut, Tier, Violation};
-use crate::props::c03::HOp;
+use crate::props::c03::{hint_mode, HOp, Vague};
 use crate::rng::{det_hash, Hash64, Src};
 use crate::runner::guarded;
 use crate::workload::{draw_spec, gen_drawable, gen_knobs, DrawableSpec, Path};
@@ -258,13 +258,13 @@ fn hop_to_top(op: &HOp) -> TOp {
 /// Issue a primitive target operation on any target of colour `C`.
 fn issue<C: SimColor, T: DrawTarget<Color = C, Error = SimError>>(d: &mut T, top: &TOp) -> Result<(), SimError> {
     match top {
-        TOp::DrawIter(px) => d.draw_iter(px.iter().map(|(x, y, c)| Pixel(Point::new(*x, *y), C::from_u32(*c)))),
+        TOp::DrawIter(px) => d.draw_iter(Vague { it: px.iter().map(|(x, y, c)| Pixel(Point::new(*x, *y), C::from_u32(*c))), mode: hint_mode(top) }),
         TOp::FillContiguous { area, colours, repeat } => {
             let a = crate::erased::rect_of(area);
             let it = colours.iter().map(|c| C::from_u32(*c));
             match repeat {
-                Some(r) => d.fill_contiguous(&a, it.chain(core::iter::repeat(C::from_u32(*r)))),
-                None => d.fill_contiguous(&a, it),
+                Some(r) => d.fill_contiguous(&a, Vague { it: it.chain(core::iter::repeat(C::from_u32(*r))), mode: hint_mode(top) }),
+                None => d.fill_contiguous(&a, Vague { it, mode: hint_mode(top) }),
             }
         }
         TOp::FillSolid { area, colour } => d.fill_solid(&crate::erased::rect_of(area), C::from_u32(*colour)),
@@ -709,11 +709,26 @@ fn run_typed<C: SimColor + ColorMapping>(sc: &Scenario, opts: &Opts) -> RunOut {
                             } else if !question {
                                 // parse back: the rows between the header and the trailer
                                 let rows: Vec<&str> = text.lines().skip(1).take(N - empty_rows).collect();
-                                let r2 = guarded(|| read_cells(&MockDisplay::<C>::from_pattern(&rows)));
+                                // the display built from the pattern is a display made in a different
+                                // way (never written through a setter): it must compare equal to the
+                                // drawn one, both ways round, with an empty diff
+                                let r2 = guarded(|| {
+                                    let pd = MockDisplay::<C>::from_pattern(&rows);
+                                    let eqs = (pd == display, display == pd);
+                                    let diff_cells = read_cells(&display.diff(&pd));
+                                    (read_cells(&pd), eqs, diff_cells)
+                                });
                                 match r2 {
-                                    Err(e) => viol = Some(mk(si, "round_trip", format!("from_pattern(Debug rows) panicked: {}", e))),
-                                    Ok(cells) => {
+                                    Err(e) => viol = Some(mk(si, "round_trip", format!("from_pattern(Debug rows) / comparison with it panicked: {}", e))),
+                                    Ok((cells, eqs, diff_cells)) => {
                                         out.probes |= probe("debug_round_trip_done");
+                                        if cells == model.cells {
+                                            if eqs != (true, true) {
+                                                viol = Some(mk(si, "eq_mismatch", format!("from_pattern(Debug output) holds the same cells as the display but `==` says {:?} (pattern == display, display == pattern)", eqs)));
+                                            } else if diff_cells.iter().any(|c| c.is_some()) {
+                                                viol = Some(mk(si, "diff_mismatch", "diff against from_pattern(Debug output) is not empty although all cells agree".to_string()));
+                                            }
+                                        }
                                         if let Some((x, y, want, got)) = first_cell_diff(&model.cells, &cells) {
                                             viol = Some(mk(
                                                 si,
